@@ -272,3 +272,31 @@ def uri_gate_multi(n: int, a0: int, a1: int, a2: int, u0: int, u1: int, u2: int)
             if v == "v" and k in sanitizer.allowed_attributes and k not in out["data"]:
                 return False
         return True
+
+
+def uri_gate_custom(si: int, pos: int, hn: int, h0: int, tail: int, ai: int) -> bool:
+    """
+    pre: 0 <= si < len(SCHEMES) and 0 <= pos <= 26 and 0 <= hn <= 1 and 0 <= h0 < NUA and 0 <= tail <= 1 and 0 <= ai < P("nattrs", len(URI_ATTRS))
+    pre: hn >= 1 or h0 == 0
+    pre: P("scheme", None) is None or si == P("scheme", None)
+    post: _
+    """
+    # a CUSTOM protocol allow-list (only http): every other scheme - data: included, whatever its content type - is removed
+    base = SCHEMES[pick(len(SCHEMES), si)]
+    p = pick(27, pos)
+    hole = UALPHA[pick(NUA, h0)] if pick(2, hn) else ""
+    tail = pick(2, tail)
+    key = URI_ATTRS[pick(len(URI_ATTRS), ai)]
+    with untraced():
+        if p > len(base):
+            return True
+        v = base[:p] + hole + base[p:] + ("alert(1)" if tail else "")
+        f = sanitizer.Filter([], allowed_protocols=frozenset(["http"]))
+        out = f.sanitize_token({"type": "StartTag", "name": "a", "namespace": HTML, "data": {key: v}})
+        if out is None or out["type"] != "StartTag":
+            return False
+        if key in out["data"]:
+            sch = r6_scheme(v)
+            if sch is not None and sch != "http":
+                return False
+        return True
